@@ -80,7 +80,7 @@ CLAIMS["C13"] = (
 )
 CLAIMS["C17"] = (
     "Lean 4 proof about the group-by-segment-label model (via the C05 change-detector round trip) + exact model/code correspondence with a detector returning prescribed changepoints",
-    "Theorems anomaliser_flags_out_of_range_segments (for valid changepoints the output is exactly the filter of the segment list [c_i, c_{i+1}) by `stat < lo or stat > hi`), anomaliser_output_sublist (own interval per flagged segment, order kept, no merging), flagged_iff in Skc/Props/C17.lean, for every statistic (arbitrary function of the segment), bounds, n and changepoints.",
+    "Theorems anomaliser_flags_out_of_range_segments (for valid changepoints the output is exactly the filter of the segment list [c_i, c_{i+1}) by `stat < lo or stat > hi`), anomaliser_output_sublist (own interval per flagged segment, order kept, no merging), flagged_iff, anomaliser_output_wellformed (sorted, pairwise disjoint, non-empty intervals inside [0,n]; segmentsFrom_wf), anomaliser_over_pelt (the 'valid changepoints' hypothesis is a theorem for the default wrapped detector PELT, by C02/C04) in Skc/Props/C17.lean, for every statistic (arbitrary function of the segment), bounds, n and changepoints.",
     "the statistic itself is the user's callable (an uninterpreted function of the segment in the theorem; exact rational mean / sum / range / first in the correspondence; NumPy mean / median / std / var / lambdas judged by the directly stated property); pandas groupby is modelled as 'maximal runs of equal label'; clone-and-fit of the wrapped detector (user's object untouched, refit after re-tuning uses the new settings) is observed by the harness.",
     "3/C17",
 )
